@@ -68,6 +68,13 @@ CHECKS = {
         note="`/` asserted where dividend >= 0 and divisor > 0; string bounds 3-5 characters over printable ASCII + tab/CR/LF; decimal rendering itself is Python's str(int).",
         design="6/C13",
     ),
+    "C11": dict(
+        category="other",
+        technique="symbolic execution of the real parser on shadowing templates (z3 Int widths): nbits() == width variable of the innermost visible earlier definition; BV encode == spec for the resolved definition",
+        text="Placement variants (the name declared at each of the 4 enclosing levels none/before/after, dotted paths, first dotted component shadowed by a nested message or an import name, imports with/without `as`, constants) run through the real lexer+parser with symbolic widths; z3 proves accepted <=> a visible earlier definition exists and that the field's nbits() is the width variable of the innermost one; a second stage proves with the BV engine that the generated encoder uses the resolved definition's width and members.",
+        note="Depth <= 3, one import level; the prefix-of-a-dotted-path case the property leaves open is avoided. My own resolver is encoded in the variant generator.",
+        design="6/C11",
+    ),
 }
 
 NOT_APPLICABLE = {
@@ -111,7 +118,7 @@ def main():
             "add_only": True,
         },
         "engines": [
-            {"name": "pysym", "path": "vlib/pysym.py", "serves_properties": ["C01", "C02", "C05", "C07", "C08", "C09", "C12", "C13", "C14"], "kind_free_text": "DART-style symbolic execution of the real Python sources with z3 proxies (BV-192 / Int)"},
+            {"name": "pysym", "path": "vlib/pysym.py", "serves_properties": ["C01", "C02", "C05", "C07", "C08", "C09", "C11", "C12", "C13", "C14"], "kind_free_text": "DART-style symbolic execution of the real Python sources with z3 proxies (BV-192 / Int)"},
         ],
         "checks": checks,
         "not_applicable": na,
